@@ -23,8 +23,10 @@ func HarnessC16Sched() {
 	deps := Files{base}
 	fdp1, fqns1, he1, tag1 := zzUserFile("f1.proto", "e1")
 	fdp2, fqns2, he2, tag2 := zzUserFile("f2.proto", "e2")
-	if zz.Tier() == 0 {
-		// quick tier: one message per file
+	// quick: one message per file, delay bound 1. thorough: that space with delay bound 2,
+	// plus files with up to two messages at delay bound 1.
+	deep := zz.Tier() == 1 && zz.Choice(2) == 0
+	if zz.Tier() == 0 || deep {
 		zz.Assume(len(fdp1.MessageType) == 1 && len(fdp2.MessageType) == 1)
 	}
 	r1 := zzLinkFile(fdp1, deps)
@@ -38,7 +40,7 @@ func HarnessC16Sched() {
 	_, _, _, _ = he1, he2, tag1, tag2
 
 	pre := 1
-	if zz.Tier() == 1 {
+	if deep {
 		pre = 2
 	}
 	syms := &Symbols{}
